@@ -397,12 +397,13 @@ Qed.
 
 Theorem load_canon_empty s kind bf sz hh :
   sz = 0%N -> hh = 0 -> (2 <= bf)%N ->
-  oks (load_mast s kind (Root None sz hh bf fmt_bin)) (fun r => fst r = FBin /\ kcanon bf (snd r) []).
+  oks (load_mast s kind (Root None sz hh bf fmt_bin))
+      (fun r => fst r = FBin /\ kcanon bf (snd r) [] /\ m_root _ _ (snd r) = LPtr (fresh_node key val)).
 Proof.
   intros -> -> Hbf. unfold load_mast. cbn [r_fmt r_link r_height r_size r_bf]. change (parse_fmt fmt_bin) with (Some FBin). cbv beta iota zeta.
   cbn [load]. apply (oks_bind _ _ (fun c => c = fresh_node key val)); [apply oks_ret; reflexivity|]. intros c ->.
   cbn [n_es fresh_node check_keys]. apply (oks_bind _ _ (fun _ => True)); [apply oks_ret; exact I|]. intros _ _.
-  apply oks_ret. cbn [fst snd]. split; [reflexivity|]. cbn [pow_N].
+  apply oks_ret. cbn [fst snd]. split; [reflexivity|]. cbn [pow_N]. split; [|reflexivity].
   exact (empty_canon key val kcmp (klayer bf) bf false Hbf).
 Qed.
 
@@ -417,8 +418,15 @@ Qed.
 Lemma nocoll_load s h t : nocoll s (ELoad h :: t) <-> nocoll s t.
 Proof. reflexivity. Qed.
 
-Definition root_allh (s : store) (kind : N) (m : kmast) : Prop :=
-  forall n, root_n _ _ (m_root _ _ m) = Some n -> allh key val (sto s kind) n.
+Definition root_allh (s : store) (kind : N) (m : kmast) : Prop := allh_l key val (sto s kind) (m_root _ _ m).
+
+Lemma root_node_allh s kind (r : klink) n : allh_l key val (sto s kind) r -> root_n _ _ r = Some n -> allh key val (sto s kind) n.
+Proof.
+  intros H Hr. destruct r as [|c|h c|h]; cbn [root_n] in Hr; inversion Hr; subst.
+  - apply allh_fresh.
+  - inversion H; assumption.
+  - inversion H; subst. apply sto_hered with (h := h). assumption.
+Qed.
 
 Lemma flush_nonnil s kind bf (m : kmast) l (r : klink) n tl t1 lk m1 :
   kcanon bf m l -> root_allh s kind m -> list_ok kind l ->
@@ -430,7 +438,7 @@ Lemma flush_nonnil s kind bf (m : kmast) l (r : klink) n tl t1 lk m1 :
         ret (Some h, set_root _ _ m (LHash h n') (m_emptied _ _ m))) = (t1, Ok (lk, m1)) ->
   nocoll s t1 ->
   oks (load_mast (apply_stores s t1) kind (Root lk (m_size _ _ m1) (m_height _ _ m1) (m_bf _ _ m1) fmt_bin))
-      (fun r => fst r = FBin /\ kcanon bf (snd r) l) /\
+      (fun r => fst r = FBin /\ kcanon bf (snd r) l /\ root_allh (apply_stores s t1) kind (snd r)) /\
   kcanon bf m1 l /\ root_allh (apply_stores s t1) kind m1.
 Proof.
   intros C Hall Hlo Eroot Hrn He Hld Htl Hntl Ef Hn.
@@ -445,33 +453,36 @@ Proof.
     assert (Hh0 : m_height _ _ m = 0).
     { pose proof (cn_h _ _ _ _ _ _ _ C) as Hh. rewrite Hbfe in Hh. exact (hrule_nil_height bf _ Hh). }
     split; [|split; [exact C|exact Hall]].
-    rewrite Hbfe. apply load_canon_empty; [exact Hs0|exact Hh0|rewrite <- Hbfe; exact Hbf].
+    rewrite Hbfe. eapply oks_weaken; [apply load_canon_empty; [exact Hs0|exact Hh0|rewrite <- Hbfe; exact Hbf]|].
+    intros r0 [A [B Cc]]. split; [exact A|split; [exact B|unfold root_allh; rewrite Cc; constructor; apply allh_fresh]].
   - apply bind_ok_inv in Ef. destruct Ef as (t' & [hh n'] & t3 & Est & Er & ->).
     unfold ret in Er. inversion Er; subst t3 lk m1. clear Er. rewrite app_nil_r in *.
     assert (Hfits : fits key val (S (S (m_height _ _ m))) n) by (apply fits_mono; exact (fits_bnode key val (klayer bf) _ _ _ He)).
     assert (Hlist : to_list_n _ _ n = l) by exact (canon_list key val (klayer bf) _ _ _ He).
     assert (Hsto : sto (apply_stores s t') kind hh n').
     { refine (store_node_sto kind _ n s Hfits _ _ t' (hh, n') Est Hn).
-      - apply Hall. rewrite Eroot. exact Hrn.
+      - apply (root_node_allh s kind r); [rewrite <- Eroot; exact Hall|exact Hrn].
       - rewrite Hlist. exact Hlo. }
     assert (Her : erase_n _ _ n' = erase_n _ _ n).
     { destruct (store_node_erase _ FBin n Hfits) as (t0 & r0 & E0 & H0). rewrite Est in E0. inversion E0; subst. exact H0. }
     cbn [set_root m_size m_height m_bf m_root].
     split; [|split].
-    + rewrite Hbfe. eapply oks_weaken; [apply (load_canon _ kind bf _ _ hh n' l Hsto)|intros r0 [A [B _]]; split; assumption].
+    + rewrite Hbfe. eapply oks_weaken; [apply (load_canon _ kind bf _ _ hh n' l Hsto)|
+        intros r0 [A [B Cc]]; split; [exact A|split; [exact B|unfold root_allh; rewrite Cc; constructor; exact Hsto]]].
       * rewrite Her. exact He.
       * exact (cn_sorted _ _ _ _ _ _ _ C).
       * exact (cn_size _ _ _ _ _ _ _ C).
       * rewrite <- Hbfe. exact Hbf.
       * pose proof (cn_h _ _ _ _ _ _ _ C) as Hh. rewrite Hbfe in Hh. exact Hh.
     + eapply canon_set_root; [exact C|reflexivity|]. rewrite Her. exact He.
-    + intros n0 Hn0. cbn [set_root m_root root_n] in Hn0. inversion Hn0; subst. exact (sto_hered _ _ _ _ Hsto).
+    + unfold root_allh. cbn [set_root m_root]. constructor. exact Hsto.
 Qed.
 
 Theorem persist_then_load s kind bf (m : kmast) l t rt m' :
   kcanon bf m l -> root_allh s kind m -> list_ok kind l ->
   make_root FBin m = (t, Ok (rt, m')) -> nocoll s t ->
-  oks (load_mast (apply_stores s t) kind rt) (fun r => fst r = FBin /\ kcanon bf (snd r) l) /\
+  oks (load_mast (apply_stores s t) kind rt)
+      (fun r => fst r = FBin /\ kcanon bf (snd r) l /\ root_allh (apply_stores s t) kind (snd r)) /\
   kcanon bf m' l /\ root_allh (apply_stores s t) kind m'.
 Proof.
   intros C Hall Hlo E Hn.
@@ -488,9 +499,10 @@ Proof.
     assert (Hh0 : m_height _ _ m = 0).
     { pose proof (cn_h _ _ _ _ _ _ _ C) as Hh. rewrite Hbfe in Hh. exact (hrule_nil_height bf _ Hh). }
     split; [|split].
-    + rewrite Hbfe. apply load_canon_empty; [exact Hs0|exact Hh0|rewrite <- Hbfe; exact Hbf].
+    + rewrite Hbfe. eapply oks_weaken; [apply load_canon_empty; [exact Hs0|exact Hh0|rewrite <- Hbfe; exact Hbf]|].
+      intros r0 [A [B Cc]]. split; [exact A|split; [exact B|unfold root_allh; rewrite Cc; constructor; apply allh_fresh]].
     + eapply canon_set_root; [exact C|reflexivity|]. cbn [root_n] in Hrn. inversion Hrn; subst. exact He.
-    + intros n0 Hn0. cbn [set_root m_root root_n] in Hn0. inversion Hn0; subst. apply allh_fresh.
+    + unfold root_allh. cbn [set_root m_root]. constructor.
   - cbn [root_n] in Hrn. inversion Hrn; subst c.
     eapply (flush_nonnil s kind bf m l (LPtr n) n [] t1 lk m1); try eassumption; try reflexivity.
     + intros s0 t0 H0. exact H0.
@@ -498,4 +510,192 @@ Proof.
     eapply (flush_nonnil s kind bf m l (LHash h n) n [ELoad h] t1 lk m1); try eassumption; try reflexivity.
     + intros s0 t0 H0. exact H0.
   - discriminate.
+Qed.
+
+
+(** * the hash links of a tree stay in the store through every operation *)
+Section ROOT_ALLH.
+Variable s : store.
+Variable kind : N.
+Notation P := (sto s kind).
+
+Lemma first_node_allh (m : kmast) : root_allh s kind m ->
+  okp (match m_root _ _ m with LNil => ret (fresh_node key val) | r => load _ _ r end) (allh key val P).
+Proof.
+  intros H. unfold root_allh in H. destruct (m_root _ _ m) as [|c|h c|h] eqn:E.
+  - apply okp_ret. apply allh_fresh.
+  - apply (load_allh key val P (sto_hered s kind) _ H).
+  - apply (load_allh key val P (sto_hered s kind) _ H).
+  - inversion H.
+Qed.
+
+Lemma root_allh_of_node (m : kmast) n : allh key val P n -> root_allh s kind (root_of_node _ _ m n).
+Proof.
+  intros H. unfold root_allh, root_of_node. destruct (is_empty _ _ n); cbn [set_root m_root]; constructor. exact H.
+Qed.
+
+Lemma grow_allh bf (m : kmast) : root_allh s kind m -> okp (grow _ _ (klayer bf) m) (root_allh s kind).
+Proof.
+  intros H. unfold grow. apply (okp_bind _ _ _ _ (load_allh key val P (sto_hered s kind) _ H)). intros n Hn.
+  apply (okp_bind _ _ (fun _ => True)); [intros ? ? _; exact I|]. intros _ _. apply okp_ret.
+  unfold root_allh. cbn [m_root]. constructor. apply grow_node_allh. exact Hn.
+Qed.
+
+Lemma grow_loop_allh bf : forall fuel root0 (m : kmast), root_allh s kind m ->
+  okp (grow_loop _ _ (klayer bf) fuel root0 m) (root_allh s kind).
+Proof.
+  induction fuel as [|f IH]; intros root0 m H; [apply okp_nofuel|]. cbn [grow_loop].
+  destruct (N.leb (m_grow_after _ _ m) (m_size _ _ m)); [|apply okp_ret; exact H].
+  apply (okp_bind _ _ (fun _ => True)); [intros ? ? _; exact I|]. intros cg _. destruct cg; [|apply okp_ret; exact H].
+  apply (okp_bind _ _ _ _ (grow_allh bf m H)). intros m' Hm'. apply IH. exact Hm'.
+Qed.
+
+Lemma set_size_allh (m : kmast) sz : root_allh s kind m -> root_allh s kind (set_size _ _ m sz).
+Proof. intros H. exact H. Qed.
+
+Theorem insert_allh bf (m : kmast) k v : root_allh s kind m ->
+  okp (insert _ _ kcmp bytes_eqb (klayer bf) m k v) (root_allh s kind).
+Proof.
+  intros H. unfold insert. apply okp_tick.
+  apply (okp_bind _ _ _ _ (first_node_allh m H)). intros n Hn.
+  apply (okp_bind _ _ _ _ (ins_allh key val kcmp bytes_eqb P (sto_hered s kind) _ _ _ k v n Hn)). intros r Hr.
+  destruct r as [|n'|n']; cbn [ins_res_ok] in Hr.
+  - apply okp_ret. exact H.
+  - apply okp_tick. apply okp_ret. apply root_allh_of_node. exact Hr.
+  - apply okp_tick. apply (okp_bind _ _ _ _ (grow_loop_allh bf _ n' _ (root_allh_of_node m n' Hr))). intros m2 Hm2.
+    apply okp_ret. exact Hm2.
+Qed.
+
+Lemma shrink_allh (m : kmast) : root_allh s kind m -> okp (shrink _ _ m) (root_allh s kind).
+Proof.
+  intros H. unfold shrink. destruct (m_height _ _ m) as [|h']; [apply okp_fail|].
+  assert (Hb : okp (let* n := load _ _ (m_root _ _ m) in
+                    let* n' := shrink_node _ _ n in
+                    let (sb, ga) := if (1 <? m_shrink_below _ _ m)%N
+                                    then ((m_shrink_below _ _ m / m_bf _ _ m)%N, (m_grow_after _ _ m / m_bf _ _ m)%N)
+                                    else (m_shrink_below _ _ m, m_grow_after _ _ m) in
+                    ret (Mast (link_of _ _ n') h' (m_size _ _ m) (m_bf _ _ m) ga sb (m_emptied _ _ m))) (root_allh s kind)).
+  { apply (okp_bind _ _ _ _ (load_allh key val P (sto_hered s kind) _ H)). intros n Hn.
+    apply (okp_bind _ _ _ _ (shrink_node_allh key val P (sto_hered s kind) n Hn)). intros n' Hn'.
+    destruct (1 <? m_shrink_below _ _ m)%N; apply okp_ret; unfold root_allh; cbn [m_root]; apply allh_link_of; exact Hn'. }
+  revert Hb. destruct (m_root _ _ m); intros Hb; [apply okp_fail|exact Hb|exact Hb|exact Hb].
+Qed.
+
+Lemma shrink_loop_allh : forall fuel (m : kmast), root_allh s kind m -> okp (shrink_loop _ _ fuel m) (root_allh s kind).
+Proof.
+  induction fuel as [|f IH]; intros m H; [apply okp_nofuel|]. cbn [shrink_loop].
+  destruct (Nat.ltb 0 (m_height _ _ m) && ((m_size _ _ m <=? m_shrink_below _ _ m)%N || root_has_no_keys _ _ m)); [|apply okp_ret; exact H].
+  apply (okp_bind _ _ _ _ (shrink_allh m H)). intros m' Hm'. apply IH. exact Hm'.
+Qed.
+
+Theorem delete_allh bf (m : kmast) k v : root_allh s kind m ->
+  okp (delete _ _ kcmp bytes_eqb (klayer bf) m k v) (root_allh s kind).
+Proof.
+  intros H. unfold delete.
+  assert (Hb : okp (tick ELayer >>
+      (let* n := load _ _ (m_root _ _ m) in
+       let* n' := del _ _ kcmp bytes_eqb (S (m_height _ _ m)) (m_height _ _ m) (Nat.min (klayer bf k) (m_height _ _ m)) k v n in
+       tick ECommit >>
+       (let m1 := root_of_node _ _ m n' in shrink_loop _ _ max_layer_fuel (set_size _ _ m1 (m_size _ _ m1 - 1))))) (root_allh s kind)).
+  { apply okp_tick. apply (okp_bind _ _ _ _ (load_allh key val P (sto_hered s kind) _ H)). intros n Hn.
+    apply (okp_bind _ _ _ _ (del_allh key val kcmp bytes_eqb P (sto_hered s kind) _ _ _ k v n Hn)). intros n' Hn'.
+    apply okp_tick. cbn zeta. apply shrink_loop_allh. apply set_size_allh. apply root_allh_of_node. exact Hn'. }
+  unfold val in *. revert Hb. destruct (m_root key bytes m); intros Hb; [apply okp_fail|exact Hb|exact Hb|exact Hb].
+Qed.
+
+Theorem clone_allh (m : kmast) : root_allh s kind m -> okp (clone _ _ m) (root_allh s kind).
+Proof.
+  intros H. unfold clone.
+  assert (Hb : okp (let* n := load _ _ (m_root _ _ m) in ret (set_root _ _ m (LPtr n) (m_emptied _ _ m))) (root_allh s kind)).
+  { apply (okp_bind _ _ _ _ (load_allh key val P (sto_hered s kind) _ H)). intros n Hn. apply okp_ret.
+    unfold root_allh. cbn [set_root m_root]. constructor. exact Hn. }
+  revert Hb. destruct (m_root _ _ m) eqn:E; intros Hb; [apply okp_ret; unfold root_allh; rewrite E; constructor|exact Hb|exact Hb|exact Hb].
+Qed.
+End ROOT_ALLH.
+
+Lemma root_allh_mono s s' kind (m : kmast) : extends s s' -> root_allh s kind m -> root_allh s' kind m.
+Proof. intros Hx H. unfold root_allh in *. eapply allh_l_mono; [|exact H]. intros h c. apply sto_mono'. exact Hx. Qed.
+
+(** * any number of modify / persist / reload cycles *)
+Inductive pop := PIns (k : key) (v : val) | PDel (k : key) (v : val) | PPersistReload.
+
+Definition pstate := (store * kmast)%type.
+
+Definition pstep (kind bf : N) (st : pstate) (o : pop) : option pstate :=
+  let (s, m) := st in
+  match o with
+  | PIns k v => match insert _ _ kcmp bytes_eqb (klayer bf) m k v with (_, Ok m') => Some (s, m') | _ => None end
+  | PDel k v => match delete _ _ kcmp bytes_eqb (klayer bf) m k v with (_, Ok m') => Some (s, m') | _ => None end
+  | PPersistReload =>
+      match make_root FBin m with
+      | (t, Ok (rt, _)) =>
+          let s' := apply_stores s t in
+          match load_mast s' kind rt with (_, Ok (_, m2)) => Some (s', m2) | _ => None end
+      | _ => None
+      end
+  end.
+
+Definition aspec (l : list (key * val)) (o : pop) : list (key * val) :=
+  match o with PIns k v => aupsert k v l | PDel k v => aremove k l | PPersistReload => l end.
+
+(* side conditions of a step: the element encodings round-trip and sizes fit 64 bits; a delete names
+   a live entry; no two different byte strings written by the persist share a name *)
+Definition pcond (kind : N) (st : pstate) (l : list (key * val)) (o : pop) : Prop :=
+  match o with
+  | PIns k v => list_ok kind (aupsert k v l)
+  | PDel k v => alookup k l = Some v
+  | PPersistReload => forall t r, make_root FBin (snd st) = (t, Ok r) -> nocoll (fst st) t
+  end.
+
+Definition pinv (kind bf : N) (st : pstate) (l : list (key * val)) : Prop :=
+  kcanon bf (snd st) l /\ root_allh (fst st) kind (snd st) /\ list_ok kind l.
+
+Lemma list_ok_remove kind k l : ssorted key val kcmp l -> list_ok kind l -> list_ok kind (aremove k l).
+Proof.
+  intros Hs Hl. destruct (sorted_cut key val kcmp kcmp_eq kcmp_antisym kcmp_trans k l Hs) as [a b El Ha Hb|a b v El Ha Hb]; subst l.
+  - unfold aremove. rewrite remove_absent by (try exact kcmp_eq; try exact kcmp_antisym; assumption). exact Hl.
+  - unfold aremove. rewrite remove_present by (try exact kcmp_eq; assumption).
+    eapply list_ok_incl; [exact Hl| |rewrite !app_length; cbn [length]; lia].
+    intros x Hx. apply in_app_or in Hx. apply in_or_app. destruct Hx; [left; assumption|right; right; assumption].
+Qed.
+
+Theorem pstep_ok kind bf st l o :
+  pinv kind bf st l -> pcond kind st l o ->
+  exists st', pstep kind bf st o = Some st' /\ pinv kind bf st' (aspec l o).
+Proof.
+  intros (C & Hall & Hlo) Hc. destruct st as [s m]. cbn [fst snd] in *. destruct o as [k v|k v|]; cbn [pstep aspec pcond] in *.
+  - destruct (k_insert_ok bf m l k v C) as (t & m' & E & C'). rewrite E. exists (s, m'). split; [reflexivity|].
+    split; [exact C'|]. split; [|exact Hc]. exact (insert_allh s kind bf m k v Hall t m' E).
+  - destruct (k_delete_ok bf m l k v C Hc) as (t & m' & E & C'). rewrite E. exists (s, m'). split; [reflexivity|].
+    split; [exact C'|]. split; [exact (delete_allh s kind bf m k v Hall t m' E)|].
+    apply list_ok_remove; [exact (cn_sorted _ _ _ _ _ _ _ C)|exact Hlo].
+  - destruct (k_make_root_ok bf FBin m l C) as (t & [rt m1] & E & _). rewrite E.
+    destruct (persist_then_load s kind bf m l t rt m1 C Hall Hlo E (Hc t (rt, m1) E)) as (Hload & _ & _).
+    destruct Hload as (t2 & [f m2] & E2 & Hf & C2 & A2). rewrite E2. exists (apply_stores s t, m2). split; [reflexivity|].
+    cbn [fst snd] in *. split; [exact C2|split; [exact A2|exact Hlo]].
+Qed.
+
+Fixpoint prun (kind bf : N) (st : pstate) (ops : list pop) : option pstate :=
+  match ops with
+  | [] => Some st
+  | o :: r => match pstep kind bf st o with Some st' => prun kind bf st' r | None => None end
+  end.
+Fixpoint aprun (l : list (key * val)) (ops : list pop) : list (key * val) :=
+  match ops with [] => l | o :: r => aprun (aspec l o) r end.
+(* the side conditions along the run *)
+Fixpoint pconds (kind bf : N) (st : pstate) (l : list (key * val)) (ops : list pop) : Prop :=
+  match ops with
+  | [] => True
+  | o :: r => pcond kind st l o /\
+              match pstep kind bf st o with Some st' => pconds kind bf st' (aspec l o) r | None => True end
+  end.
+
+Theorem cycles_ok kind bf : forall ops st l,
+  pinv kind bf st l -> pconds kind bf st l ops ->
+  exists st', prun kind bf st ops = Some st' /\ pinv kind bf st' (aprun l ops).
+Proof.
+  induction ops as [|o r IH]; intros st l Hi Hc; [exists st; split; [reflexivity|exact Hi]|].
+  cbn [pconds] in Hc. destruct Hc as [Hc1 Hc2].
+  destruct (pstep_ok kind bf st l o Hi Hc1) as (st' & E & Hi'). cbn [prun aprun]. rewrite E in *.
+  exact (IH st' (aspec l o) Hi' Hc2).
 Qed.
